@@ -316,3 +316,21 @@ func VerifC16_TokensConcurrent() {
 	t.get()
 	verifapi.Assert(t.count() == 1, "C16: the proxy polls again with full capacity")
 }
+
+// VerifC06_TwoProxies: the admission decision belongs to the proxy that makes it - two proxies
+// in one process (the library is used that way in tests and embedders) with different patterns
+// each apply their own, in whatever order they run their sessions.
+func VerifC06_TwoProxies() {
+	tokens = newTokens(0)
+	broker = &SignalingServer{}
+	pats := [2]string{"a$", "^b$"}
+	first := verifapi.Concrete(verifapi.Choice("first proxy", 2))
+	for k := 0; k < 2; k++ {
+		sf := &SnowflakeProxy{RelayDomainNamePattern: pats[(first+k)%2], AllowNonTLSRelay: true, shutdown: make(chan struct{})}
+		verifRelayURL = "u" + verifapi.String("relayurl", 1)
+		verifOpened, verifParseFails = false, false
+		tokens.get()
+		sf.runSession("sid") // verifMakePC asserts membership against sf's own pattern
+	}
+	verifapi.Cover("two proxies ran a session each")
+}
